@@ -35,13 +35,13 @@ Inductive act : Type :=
 | Native (p : prog) (exe_on_error : bool).
 
 (** in-place mutation below the top level: an object gains "poked": 1 (also
-    the first element of an array when it is an object); other arrays gain
-    an element *)
+    the first element of an array when it is an object); the first element
+    of any other non-empty array is replaced by 1 *)
 Definition poke (v : json) : json :=
   match v with
   | JObj kvs => JObj (bset "poked" (JNum 4) kvs)
   | JArr (JObj kvs :: r) => JArr (JObj (bset "poked" (JNum 4) kvs) :: r)
-  | JArr l => JArr (l ++ [JNum 4])
+  | JArr (_ :: r) => JArr (JNum 4 :: r)
   | _ => v
   end.
 
